@@ -697,48 +697,45 @@ Qed.
 (* ------------------------------------------------------------------------------------------ *)
 (* the property's own wording of the order; where it holds and where it does not               *)
 (* ------------------------------------------------------------------------------------------ *)
-(* "the declaration is generic exactly when one of its parameters IS a type parameter":
-   true of T / T Referenz, false of a declaration all of whose type parameters occur below
-   a list (T Liste) - sortAliases only counts the former *)
-Definition generic_is_counted (a : alias) : Prop := a_generic a = true <-> 0 < gen_count a.
+Lemma generic_counted a : a_generic a = true <-> 0 < gen_count a.
+Proof. unfold a_generic. apply Nat.ltb_lt. Qed.
 
 Lemma maximal_in_property_terms c a :
-  generic_is_counted c -> generic_is_counted a ->
   alias_less c a = false ->
   alias_len c <= alias_len a /\
   (alias_len c = alias_len a ->
      (a_generic a = true -> a_generic c = true) /\                          (* non-generic before generic *)
      (a_generic a = false -> a_generic c = false -> ref_count c <= ref_count a)).   (* then more Referenz *)
 Proof.
-  intros Hc Ha Hl. destruct (not_less_explicit _ _ Hl) as [H1 H2]. split; [exact H1|].
+  intros Hl. destruct (not_less_explicit _ _ Hl) as [H1 H2]. split; [exact H1|].
   intros El. destruct (H2 El) as [Hg Hr]. split.
-  - intros Ga. apply Hc. apply Ha in Ga. lia.
+  - intros Ga. apply generic_counted. apply generic_counted in Ga. lia.
   - intros Ga Gc. apply Hr.
-    assert (~ 0 < gen_count a) by (intros X; apply Ha in X; congruence).
-    assert (~ 0 < gen_count c) by (intros X; apply Hc in X; congruence). lia.
+    assert (~ 0 < gen_count a) by (intros X; apply generic_counted in X; congruence).
+    assert (~ 0 < gen_count c) by (intros X; apply generic_counted in X; congruence). lia.
 Qed.
 
-(* the witness: "foo <a>" declared for a Zahlen Liste and, generically, for a T Liste;
-   call "foo vzl" with vzl a Zahlen Liste *)
+(* documentation of the repaired defect (3e80d99): "foo <a>" declared for a Zahlen Liste and,
+   generically, for a T Liste. Under the old key (only parameters whose type IS a type parameter
+   count) the two tie; under the current key the non-generic one sorts first and is selected
+   whatever the declaration order. *)
 Definition w_foo : tok := {| tt := tt_IDENTIFIER; lit := [102; 111; 111]%N; ainfo := None |}.
 Definition w_var : tok := {| tt := tt_IDENTIFIER; lit := [118; 122; 108]%N; ainfo := None |}.
 Definition w_ph (rank id : N) : tok :=
   {| tt := tt_ALIAS_PARAMETER; lit := [97%N]; ainfo := Some {| t_ref := false; t_list := true; t_name := rank; t_id := id |} |}.
 Definition w_zl : ty := TList (TBase 1).
-(* rank: "T Liste" < "Zahlen Liste" in byte order *)
-Definition w_conc : alias := mkAlias 1 1 [w_foo; w_ph 2 2] [mkParam [97%N] w_zl false] false false.
-Definition w_gen : alias := mkAlias 2 2 [w_foo; w_ph 1 1] [mkParam [97%N] (TList (TGen 1)) false] false true.
+Definition w_conc : alias := mkAlias 1 1 [w_foo; w_ph 2 2] [mkParam [97%N] w_zl false] false.
+Definition w_gen : alias := mkAlias 2 2 [w_foo; w_ph 1 1] [mkParam [97%N] (TList (TGen 1)) false] false.
 Definition w_stream : list tok := [w_foo; w_var].
 Definition w_argty (isref : bool) (c : nat) : option ty := if Nat.eqb c 1 then Some w_zl else None.
 Definition w_select (order : list alias) : outcome :=
   select w_stream w_argty (fun _ => false) (fun _ _ => true) (TBase 5) (declare_all order) 0.
 
-Lemma prefers_nongeneric_refuted_witness :
-  (exists b e, w_select [w_conc; w_gen] = Selected w_gen b e) /\
-  (exists b e, w_select [w_gen; w_conc] = Selected w_gen b e) /\
-  In w_conc (candidates w_stream (declare_all [w_conc; w_gen]) 0) /\
-  check_ok w_stream w_argty (fun _ => false) (fun _ _ => true) (TBase 5) w_conc 0 = true /\
-  alias_len w_conc = alias_len w_gen /\ a_generic w_conc = false /\ a_generic w_gen = true.
+Lemma old_sort_key_tied_witness :
+  gen_count_direct w_conc = gen_count_direct w_gen /\ a_generic w_gen = true /\ a_generic w_conc = false /\
+  alias_less w_conc w_gen = true /\
+  (exists b e, w_select [w_conc; w_gen] = Selected w_conc b e) /\
+  (exists b e, w_select [w_gen; w_conc] = Selected w_conc b e).
 Proof. vm_compute. repeat split; eauto. Qed.
 
 (* ------------------------------------------------------------------------------------------ *)
@@ -861,10 +858,9 @@ Proof.
   apply (candidates_spec s _ start c (declare_all_wf decls)). eauto.
 Qed.
 
-(* the property's own wording, for populations in which every generic declaration has a
-   parameter that IS a type parameter *)
+(* the property's own wording: longest; then a non-generic declaration before a generic one; then
+   more Referenz parameters *)
 Theorem select_maximal_property decls start l a b e :
-  (forall c, In c (candidates s (declare_all decls) start) -> generic_is_counted c) ->
   sorted_perm (candidates s (declare_all decls) start) l ->
   select_from l start = Selected a b e ->
   In a (candidates s (declare_all decls) start) /\ check_alias a start = Some (b, e) /\
@@ -874,21 +870,8 @@ Theorem select_maximal_property decls start l a b e :
        (a_generic a = true -> a_generic c = true) /\
        (a_generic a = false -> a_generic c = false -> ref_count c <= ref_count a)).
 Proof.
-  intros Hg Hsp Hsel. destruct (select_maximal s argty text_index inst_ok ty_buchstabe _ _ _ _ _ _ Hsp Hsel) as (Hin & Hc & Hmax).
+  intros Hsp Hsel. destruct (select_maximal s argty text_index inst_ok ty_buchstabe _ _ _ _ _ _ Hsp Hsel) as (Hin & Hc & Hmax).
   split; [exact Hin|]. split; [exact Hc|]. intros c Hcin Hok.
   apply maximal_in_property_terms; auto.
 Qed.
 End Assembled.
-
-(* the full statement is false of the code: a generic declaration whose type parameter occurs
-   only below a list is preferred to (or tied with) a non-generic one of equal length *)
-Theorem select_maximal_refuted :
-  exists (s : list tok) argty text_index inst_ok tb decls a c b e,
-    select s argty text_index inst_ok tb (declare_all decls) 0 = Selected a b e /\
-    In c (candidates s (declare_all decls) 0) /\ check_ok s argty text_index inst_ok tb c 0 = true /\
-    alias_len c = alias_len a /\ a_generic a = true /\ a_generic c = false.
-Proof.
-  destruct prefers_nongeneric_refuted_witness as ((b & e & H1) & _ & H3 & H4 & H5 & H6 & H7).
-  exists w_stream, w_argty, (fun _ => false), (fun _ _ => true), (TBase 5), [w_conc; w_gen], w_gen, w_conc, b, e.
-  repeat split; auto.
-Qed.
